@@ -344,8 +344,12 @@ def gap_free(ctx) -> None:
 def listing_validity(ctx) -> None:
     prog = ctx.prog
     lst = prog.func(f'{POSIX}:Registry._listing')
-    text = core.src(lst.node)
-    ctx.check('if matcher.valid(p)' in text and 'matcher.constructor(p.name)' in text, 'C05.listing', lst, 'a level is listed only when matcher.valid accepts it', lst.node, key='listing:valid')
+    comps = [n for n in ast.walk(lst.node) if isinstance(n, (ast.ListComp, ast.GeneratorExp)) and len(n.generators) == 1 and 'iterdir()' in core.src(n.generators[0].iter)]
+    okl = False
+    for comp in comps:
+        v = core.src(comp.generators[0].target)
+        okl = okl or (core.src(comp.elt) == f'matcher.constructor({v}.name)' and [core.src(c) for c in comp.generators[0].ifs] == [f'matcher.valid({v})'])
+    ctx.check(okl, 'C05.listing', lst, 'a level is listed only when matcher.valid accepts it (key built from the accepted entry)', lst.node, key='listing:valid')
     valid = prog.func(f'{POSIX}:Path.Matcher.valid')
     # valid = key AND content: returns False under `not cls.key(path)` and under `not cls.content(path)`
     falses = []
